@@ -246,8 +246,8 @@ def run_idd(case, stt):
 @st.composite
 def idd_hist_case(draw):
     base = draw(idd_case())
-    steps = [draw(st.sampled_from(["same", "same", "dm", "ref", "start", "data_len", "align", "dm_unit"])) for _ in range(draw(st.integers(1, 4)))]
-    return {"base": base, "steps": steps, "pick": draw(st.integers(0, 10**6))}
+    steps = [draw(st.sampled_from(["same", "same", "dm", "ref", "start", "data_len", "align", "dm_unit", "rate"])) for _ in range(draw(st.integers(1, 4)))]
+    return {"base": base, "steps": steps, "pick": draw(st.integers(0, 10**6)), "one_object": draw(st.booleans())}
 
 
 def run_idd_hist(case, stt):
@@ -255,7 +255,8 @@ def run_idd_hist(case, stt):
     import copy
 
     cur = copy.deepcopy(case["base"])
-    run_idd(cur, stt)
+    one = G.OneObject(case.get("one_object", False), cur["sig"])
+    one.run(run_idd, cur, stt)
     k = case["pick"]
     for i, step in enumerate(case["steps"]):
         cur = copy.deepcopy(cur)
@@ -272,8 +273,14 @@ def run_idd_hist(case, stt):
             sg["align"] = [a for a in ("bottom", "center", "top") if a != sg["align"]][(k + i) % 2]
         elif step == "dm_unit":
             cur["dm_unit"] = ["none", "pc / cm3", "kpc / cm3", "pc / m3"][(k + i) % 4]
-        run_idd(cur, stt)
+        elif step == "rate":
+            f = [2.0, 0.5, 4.0][(k + i) % 3]
+            sg["sr"] = dict(sg["sr"], v=sg["sr"]["v"] * f)
+            if sg["cls"] in G.BASEBAND:
+                sg["cf"] = dict(sg["cf"], v=sg["cf"]["v"] * f)  # (channel width follows the rate: keep the band positive)
+        one.run(run_idd, cur, stt)
         stt.label("hist_" + step)
+    stt.label("one_object_reassigned" if one.reused > 1 else "fresh_objects")
     stt.nt("same" in case["steps"] or len(case["steps"]) >= 2)
 
 
